@@ -3,9 +3,11 @@ package c17
 
 import (
 	"bytes"
+	"encoding/binary"
 	"encoding/hex"
 	"encoding/json"
 	"encoding/xml"
+	"errors"
 	"fmt"
 	"github.com/twpayne/go-geom/sorting"
 	"math"
@@ -155,9 +157,24 @@ var inventory = []string{
 	"xyz.Distances", "bigxy.Orientation", "bigxy.Intersection", "transform.UniqueCoords",
 	"wkb.Marshal", "ewkb.Marshal", "wkbhex.Encode", "ewkbhex.Encode", "wkt.Marshal", "wkt.MarshalDigits", "geojson.Marshal", "geojson.MarshalBBox", "geojson.Feature", "igc.Encode", "kml.Encode",
 	"wkb.Unmarshal", "ewkb.Unmarshal", "ewkb.Scan", "wkt.Unmarshal", "geojson.Unmarshal", "igc.Read",
-	"xy.Misc", "xy.CentroidsWithExtras", "wkb.WriteRead", "hex.Decode", "geojson.FeatureCollection", "decode.CrossFormat", "decode.CrossFormat", "decode.Truncated", "decode.Truncated", "exact.Burst", "exact.Burst",
+	"xy.Misc", "xy.CentroidsWithExtras", "wkb.WriteRead", "wkb.WriteFailing", "wkb.WriteFailing", "hex.Decode", "geojson.FeatureCollection", "decode.CrossFormat", "decode.CrossFormat", "decode.Truncated", "decode.Truncated", "exact.Burst", "exact.Burst",
 	"geojson.MarshalSharedOpts", "geojson.MarshalSharedOpts", "wkt.MarshalSharedOpts", "wkb.UnmarshalSharedOpts", "geojson.MarshalSharedSlice", "geojson.MarshalSharedSlice",
 	"ls.Interpolate", "ls.Interpolate", "ls.Interpolate", "decode.Owned", "decode.Owned", "decode.Owned",
+}
+
+// failingWriter accepts left more bytes and fails every Write after that.
+type failingWriter struct{ left, n int }
+
+func (w *failingWriter) Write(p []byte) (int, error) {
+	if len(p) > w.left {
+		k := w.left
+		w.left = 0
+		w.n += k
+		return k, errors.New("writer gave up")
+	}
+	w.left -= len(p)
+	w.n += len(p)
+	return len(p), nil
 }
 
 // Option values are plain values that callers naturally create once and pass to
@@ -220,6 +237,22 @@ func genCase(t *rapid.T) Case {
 		c.Pool = append(c.Pool, *g)
 	}
 	for i := 3; i < np; i++ {
+		// one case in three holds a long line as its last item: 512 to 700 vertices
+		// (code that stages, pools or batches works differently from some size on, and
+		// none of the other items has more than a few dozen ordinates)
+		if i == np-1 && rapid.IntRange(0, 2).Draw(t, "long") == 0 {
+			g := &model.G{Kind: model.LineString, Layout: int(rapid.SampledFrom([]geom.Layout{geom.XY, geom.XYZ}).Draw(t, "longlayout"))}
+			d := float64(rapid.IntRange(-8, 8).Draw(t, "longd"))
+			for j, n := 0, rapid.IntRange(512, 700).Draw(t, "longn"); j < n; j++ {
+				c2 := []float64{float64(j)*0.5 + d, float64((j*7)%13) + 0.25}
+				if g.Layout == int(geom.XYZ) {
+					c2 = append(c2, float64(j%5))
+				}
+				g.C1 = append(g.C1, model.Bits(c2))
+			}
+			c.Pool = append(c.Pool, *g)
+			continue
+		}
 		c.Pool = append(c.Pool, *genPoolGeom(t))
 	}
 	nc := rapid.IntRange(60, 240).Draw(t, "ncalls")
@@ -637,6 +670,23 @@ func execInner(pool []*item, c Call, geomRes func(geom.T, error) string, bytesRe
 		}
 		out := fmt.Sprintf("%x", buf.Bytes())
 		return out + canonGeom(wkb.Read(bytes.NewReader(a.wkb), sharedWKBNaN))
+	case "wkb.WriteFailing":
+		// the writer gives up after k bytes: in the byte-order mark, in the header,
+		// at the first ordinate, in the middle; the caller keeps the geometry either way
+		if a.wkb == nil || a.ewkb == nil {
+			return "n/a"
+		}
+		var sb strings.Builder
+		for _, k := range []int{0, 3, 9, 13, 21, len(a.wkb) / 2, len(a.wkb) - 1} {
+			for _, bo := range []binary.ByteOrder{wkb.XDR, wkb.NDR} {
+				w1 := &failingWriter{left: k}
+				err1 := wkb.Write(w1, bo, t, sharedWKBNaN)
+				w2 := &failingWriter{left: k}
+				err2 := ewkb.Write(w2, bo, t)
+				fmt.Fprintf(&sb, "%d:%v/%d:%v;", w1.n, err1, w2.n, err2)
+			}
+		}
+		return sb.String()
 	case "hex.Decode":
 		if a.wkb == nil || a.ewkb == nil {
 			return "n/a"
